@@ -429,7 +429,7 @@ impl Scenario for WorkerScenario {
     fn describe(&self) -> ScenarioInfo {
         ScenarioInfo {
             level: "exploration",
-            rule: "one seeded run = a seeded dictionary (any connector, optional user lexicon and mapping) + one option set + 1-4 simulated caller tasks, each owning a Worker of the one shared Tokenizer and a program of reset/tokenize(0-3x)/read/iter/init-counter/update-counts/recreate operations over sentence sequences biased to shorter-after-longer, empty-after-non-empty and repeats; the plan's global operation order is the schedule (uniform or PCT-style priority schedules). After every read that follows a tokenize, the tokens must equal those of a worker created fresh for that sentence. distinct_nontrivial = distinct plan hashes of runs with >= 1 checked read after >= 1 reset/tokenize",
+            rule: "one seeded run = a seeded dictionary (any connector, optional user lexicon and mapping) + one option set + 1-4 simulated caller tasks, each owning a Worker of the one shared Tokenizer and a program of reset/tokenize(0-3x)/read/iter/init-counter/update-counts/recreate operations over sentence sequences biased to shorter-after-longer, empty-after-non-empty and repeats; the plan's global operation order is the schedule (uniform or PCT-style priority schedules). After every read that follows a tokenize, the tokens must equal those of a worker created fresh for that sentence. Added later: 1 run in 150 contains a burst of 255/256/65534/65535/65536/131071 tokenizations of a short sentence between two sentences of one worker. distinct_nontrivial = distinct plan hashes of runs with >= 1 checked read after >= 1 reset/tokenize",
             assumptions: vec![
                 "interleaving is explored at operation granularity on one OS thread (safe-Rust callers cannot interfere below that except through interior mutability, which the Send+Sync probe and the thorough-tier Miri run address)",
                 "reads between reset_sentence and the first tokenize are unspecified and not checked",
@@ -529,9 +529,10 @@ fn big_count_plan(seed: u64) -> Plan {
     for i in 0..32 {
         lex.push_str(&format!("い,1,1,{},I{i}\n", i % 5));
     }
-    lex.push_str("う,3,3,0,U\n");
+    // id 3 is never used, id 4 twice: a frequency of 5e-10 still ranks before a frequency of 0
+    lex.push_str("う,4,4,0,U\n");
     plan.set_file("lex.csv", lex);
-    plan.set_file("matrix.def", "4 4\n0 0 0\n");
+    plan.set_file("matrix.def", "5 5\n0 0 0\n");
     plan.set_file("char.def", "DEFAULT 0 1 0\n");
     plan.set_file("unk.def", "DEFAULT,0,0,100,*\n");
     plan.set_param("conn", crate::world::CONN_MATRIX);
@@ -858,7 +859,7 @@ impl Scenario for ReorderScenario {
     fn describe(&self) -> ScenarioInfo {
         ScenarioInfo {
             level: "exploration",
-            rule: "one seeded run = a seeded dictionary + option set + the reorder tool's loop over 0-12 seeded lines (empty lines, repeated lines, all-space lines, long-then-short) with extra tokenize/read/update/init calls; the returned statistics must list every id 1..dim exactly once, be ordered by (reference count desc, id asc) with non-increasing reported values, where the reference counter is recomputed from pristine workers' lattice dumps (one count per predecessor/node pair plus EOS); the id columns are then fed to map_connection_ids_from_iter and the mapped dictionary must tokenize the lines identically up to the permutation. distinct_nontrivial = distinct plan hashes of runs that computed statistics after >= 1 counted line",
+            rule: "one seeded run = a seeded dictionary + option set + the reorder tool's loop over 0-12 seeded lines (empty lines, repeated lines, all-space lines, long-then-short) with extra tokenize/read/update/init calls; the returned statistics must list every id 1..dim exactly once, be ordered by (reference count desc, id asc) with non-increasing reported values, where the reference counter is recomputed from pristine workers' lattice dumps (one count per predecessor/node pair plus EOS); the id columns are then fed to map_connection_ids_from_iter and the mapped dictionary must tokenize the lines identically up to the permutation. Added later: an enumeration step with one long history (257 + 40 + 1 counted lines over 128/32 homographs) in which one id takes part in more than 2^32 evaluations, an unused id and an id used twice. distinct_nontrivial = distinct plan hashes of runs that computed statistics after >= 1 counted line",
             assumptions: vec![
                 "the reorder and map command-line tools are mirrored (their loops are a few lines of glue), not executed",
                 "update_connid_counts without a preceding tokenize of the current sentence is unspecified and not generated",
